@@ -522,3 +522,59 @@ pub fn watcher_race(reloads: u16, size: u8) -> Option<(String, String)> {
     }
     out.violation.map(|v| (v.sig, v.what))
 }
+
+/// Several threads poll `reloaded_global()` of one handle while it is rewritten `rounds` times (one rewrite per
+/// round): every rewrite may be reported at most once in total (the test-and-clear is atomic), and at least one
+/// report is made. Reused by C06.
+pub fn global_flag_pollers(rounds: u16, pollers: u8) -> Option<(String, String)> {
+    let src = MemSource::new(true);
+    src.tree().put("big", "w", b"0".to_vec(), Variant::Buffer);
+    let cache = AssetCache::with_source(src.handle());
+    let h = cache.load::<W8>("big").expect("load big");
+    let stop = AtomicBool::new(false);
+    let trues = AtomicU64::new(0);
+    let mut problem = None;
+    std::thread::scope(|s| {
+        for _ in 0..pollers.max(2) {
+            s.spawn(|| {
+                while !stop.load(SeqCst) {
+                    if h.reloaded_global() {
+                        trues.fetch_add(1, SeqCst);
+                    }
+                }
+            });
+        }
+        'rounds: for i in 1..=rounds as u64 {
+            let before = h.last_reload_id();
+            src.tree().put("big", "w", i.to_string().into_bytes(), Variant::Buffer);
+            src.send(&OwnedEntry::File("big".into(), "w".into()));
+            let mut calls = 0;
+            loop {
+                cache.hot_reload();
+                if h.last_reload_id() != before {
+                    break;
+                }
+                calls += 1;
+                if calls > 4000 {
+                    problem = Some(("reload-lost".to_string(), format!("version {i} was notified but never applied in 4000 hot_reload calls")));
+                    break 'rounds;
+                }
+            }
+        }
+        stop.store(true, SeqCst);
+    });
+    if problem.is_some() {
+        return problem;
+    }
+    if h.reloaded_global() {
+        trues.fetch_add(1, SeqCst);
+    }
+    let t = trues.load(SeqCst);
+    if t > rounds as u64 {
+        return Some(("global-flag-reported-twice".into(), format!("{} pollers of reloaded_global() got {t} true answers for {rounds} rewrites: some rewrite was reported more than once", pollers.max(2))));
+    }
+    if t == 0 && rounds > 0 {
+        return Some(("global-flag-never-reported".into(), format!("{rounds} rewrites happened but reloaded_global() never answered true")));
+    }
+    None
+}
